@@ -243,6 +243,18 @@ def run(ctx):
         ctx.absorb(ctx.run_engine(binary, rp["test"], rp["input"]), FAM, rp["test"])
         return ctx.finish("model_checking", "replay")
 
+    try:
+        return body(ctx, binary)
+    except vlib.Broken as e:
+        if not ctx.violations:
+            raise
+        # a divergence was already observed on the real code; a later stage that cannot run on such a
+        # tree (an engine that hangs or dies) must not turn the verdict into "broken"
+        print("NOTE: property=G10 a later stage could not run (%s); verdict from the divergences already observed" % str(e).splitlines()[0][:300], flush=True)
+        return ctx.finish("model_checking", "stopped after the first stages: divergences observed on the real code")
+
+
+def body(ctx, binary):
     q = ctx.quick()
     ctx.assumptions += [
         "nothing in p2p/sync stores a block at the pinned commit (the consumer of Listen() is gone from node.go): the harness plays the "
